@@ -164,6 +164,23 @@ def part_aero(s):
         cdw_h = sum(ph["ap.%s_perf.CDw" % n][0] * ph["ap.%s.S_ref" % n][0] for n, _ in named) / sum(ph["ap.%s.S_ref" % n][0] for n, _ in named)
         cdw_f = sum(pf_["ap.%s_perf.CDw" % n][0] * pf_["ap.%s.S_ref" % n][0] for n, _ in fullnamed) / sum(pf_["ap.%s.S_ref" % n][0] for n, _ in fullnamed)
         cmp("CD_total-CDw", ph["ap.CD"] - cdw_h, pf_["ap.CD"] - cdw_f)
+    if not s["ground"] and s["sset"] == "wing_tail":
+        # symmetry is a per-surface setting: the same aircraft with only ONE of the two surfaces modelled as a half
+        for pat in ([True, False], [False, True]):
+            mixed = [(n, m if sy else full_of(m, "left")) for (n, m), sy in zip(named, pat)]
+            pm_ = _aero_model(mixed, pat, s)
+            tag = dict(mixed="".join("h" if sy else "f" for sy in pat))
+            for (n, m), sy in zip(named, pat):
+                nyp = m.shape[1] - 1
+                Fm = pm_["ap.aero_states.%s_sec_forces" % n][:, :nyp]
+                cmp("sec_forces", Fm, pf_["ap.aero_states.%s_sec_forces" % n][:, :nyp], Fsc, dict(surf=n, **tag))
+                for q in ("CL", "CDi", "CDv"):
+                    cmp(q, pm_["ap.%s_perf.%s" % (n, q)], pf_["ap.%s_perf.%s" % (n, q)], extra=dict(surf=n, **tag))
+                cmp("S_ref", pm_["ap.%s.S_ref" % n], pf_["ap.%s.S_ref" % n], extra=dict(surf=n, **tag))
+            cmp("CL_total", pm_["ap.CL"], pf_["ap.CL"], extra=tag)
+            cmp("CM_total", pm_["ap.CM"], pf_["ap.CM"], max(np.abs(pf_["ap.CM"]).max(), 1e-3), extra=tag)
+            cdw_m = sum(pm_["ap.%s_perf.CDw" % n][0] * pm_["ap.%s.S_ref" % n][0] for n, _ in named) / sum(pm_["ap.%s.S_ref" % n][0] for n, _ in named)
+            cmp("CD_total-CDw", pm_["ap.CD"] - cdw_m, pf_["ap.CD"] - cdw_f, extra=tag)
     return dict(viol=viol, nontrivial=bool(Fsc > 1e-9), digest=digest_arrays(*[ph["ap.aero_states.%s_sec_forces" % n] for n, _ in named]), transitions=2, validated=validated)
 
 
